@@ -76,7 +76,8 @@ PROPS["C17"] = {
 
 PROPS["C16"] = {
     "id": "C16",
-    "lean_modules": ["JT.Props.C16", "JT.Props.C15"],
+    "lean_modules": ["JT.Props.C16", "JT.Props.C15", "JT.Props.C16Src"],
+    "extractors": ["golean"],
     "functional_ops": ["miss", "att"],
     "confirm_reruns": True,
     "rule": ("file sizes 0..~330000 (boundaries 1,2,255,256,65535,65536,2^20), the file cut at random points into up to 12 (10%: up to 600) pieces of which 0/30/50/80/100% are kept as received chunks, "
@@ -247,7 +248,7 @@ PROPS["C03"] = {
 
 PROPS["C07"] = {
     "id": "C07",
-    "lean_modules": ["JT.Props.C07", "JT.Props.C07Src"],
+    "lean_modules": ["JT.Props.C07", "JT.Props.C07Src", "JT.Props.C16Src"],
     "extractors": ["layouts", "paramtable", "golean"],
     "functional_ops": ["rt"],
     "rule": ("for each of the ~33 two-way message types x protocol version (2011/2013/2019 where layouts differ) x active-safety dialect: in-domain values generated as Go structs (fixed-width strings without NUL, BCD times, GBK-encodable text incl. Chinese, count/length fields consistent, "
